@@ -35,6 +35,10 @@ typedef struct _PROC_THREAD_ATTRIBUTE_LIST *LPPROC_THREAD_ATTRIBUTE_LIST;
 #define TRUE 1
 #define FALSE 0
 #define INFINITE 0xFFFFFFFF
+#define CP_ACP 0
+#define CP_OEMCP 1
+#define CP_THREAD_ACP 3
+#define CP_UTF7 65000
 #define CP_UTF8 65001
 #define MB_ERR_INVALID_CHARS 0x00000008
 #define CREATE_NEW_PROCESS_GROUP 0x00000200
